@@ -2,12 +2,15 @@ CONSTANTS
   Streams = {0}
   Paired = FALSE
   MaxOps = 6
-  MaxWire = 3
+  MaxWire = 2
   BarrierBug = FALSE
   ResetLoose = FALSE
   LoseFlagInClosing = FALSE
+  LocalOps = {"read", "write", "close", "close_read", "drop"}
+  EnvOps = {"block", "unblock"}
+  Frames = {"data", "fin", "stop", "reset"}
 INIT GInit
 NEXT GNext
 VIEW GView
 CONSTRAINT WireBound
-INVARIANT EmitState
+ACTION_CONSTRAINT EmitEdge
